@@ -51,8 +51,8 @@ func streamSizes() {
 	addSize := func(n int, climbing bool) {
 		for _, kind := range []string{"blanks", "comments"} {
 			kind := kind
-			if !textPads[n] && !climbing || climbing && kind == "blanks" {
-				continue
+			if !textPads[n] && !climbing || climbing && (kind == "blanks" || n > 136_000_000) {
+				continue // climbing: comment padding only, and text up to 136 MB (the lexer takes about a second per MB)
 			}
 			var pad []byte
 			if kind == "blanks" {
@@ -74,6 +74,9 @@ func streamSizes() {
 					if long.class() != plain.class() || !bytes.Equal(noPositions(cmd, long.stdout), noPositions(cmd, plain.stdout)) {
 						return v([]string{"C04", "C09", "C11"}, "a long stretch of "+kind+" between two chords changes the result", desc,
 							fmt.Sprintf("without: %s %s | with: %s %s", plain.class(), short(plain.stdout), long.class(), short(long.stdout)))
+					}
+					if climbing {
+						return nil
 					}
 					// a malformed tail after the stretch must still be refused
 					bad := runCrd(append(append([]byte(a), pad...), []byte("C[")...), slow*120*time.Second, cmd...)
